@@ -200,6 +200,59 @@ func (bs *builderShape) equalReuses() []equalReuse {
 	return out
 }
 
+// donorOf analyses the statistic argument of a generator call: every alternative of the value (phi cases) is either nil
+// or the statistic of old[reuseStatIdx] taken under reuseStatIdx >= 0. It returns the reuse index used (nil if none)
+// and whether all alternatives are of these two kinds; nilOnly reports that no alternative is a donor.
+func (bs *builderShape) donorOf(g *ssa.Call) (ri ssa.Value, proper bool, hasNil bool) {
+	proper = true
+	for _, cs := range splitPhiCases(g.Call.Args[1], g.Block(), nil, 0) {
+		v := stripConv(cs.val)
+		if isNilConst(v) {
+			hasNil = true
+			continue
+		}
+		matched := false
+		for _, r := range bs.reuseIdx {
+			if !bs.derivesFromIndex(v, r, 0) {
+				continue
+			}
+			// taken under reuseStatIdx >= 0: dominating fact of the case's block, or the fact of the edge it came through
+			guarded := bs.nonNeg(cs.block, r)
+			for _, ft := range cs.extra {
+				if bo, ok := ft.Cond.(*ssa.BinOp); ok && bo.X == r {
+					if z, isZ := constInt(bo.Y); isZ && z == 0 && ((bo.Op == token.GEQ && ft.Truth) || (bo.Op == token.LSS && !ft.Truth)) {
+						guarded = true
+					}
+				}
+			}
+			if guarded {
+				matched = true
+				ri = r
+			}
+		}
+		if !matched {
+			proper = false
+		}
+	}
+	return
+}
+
+// removedFor: an `old = append(old[:i], old[i+1:]...)` whose i is the given index value, possibly carried through a
+// result variable (phi of the index and the constant -1).
+func (bs *builderShape) removedFor(idx ssa.Value) bool {
+	for hi := range bs.removed {
+		if hi == idx {
+			return true
+		}
+		for _, cs := range splitPhiCases(hi, nil, nil, 0) {
+			if cs.val == idx {
+				return true
+			}
+		}
+	}
+	return false
+}
+
 // foundInMap: block b is dominated by a successful lookup in local map m.
 func foundInMap(b *ssa.BasicBlock, m ssa.Value) bool {
 	for _, ft := range condFacts(b) {
@@ -275,16 +328,25 @@ func init() {
 						c.Violate(key, g.Pos(), "a generator is invoked although an equal old rule was found: the unchanged rule gets a new controller and loses its runtime state")
 						continue
 					}
-					var reuse ssa.Value
-					for _, ri := range bs.reuseIdx {
-						if bs.nonNeg(g.Block(), ri) {
-							reuse = ri
+					ri, proper, hasNil := bs.donorOf(g)
+					switch {
+					case !proper:
+						c.Violate(key, g.Pos(), "the generator receives %s: neither nil nor the statistic of old[reuseStatIdx] taken under reuseStatIdx >= 0", accessPath(g.Call.Args[1]))
+					case ri != nil && bs.nonNeg(g.Block(), ri):
+						c.Hold(key, g.Pos(), "statistic-reusable branch: the generator receives the statistic of old[reuseStatIdx]")
+					case ri != nil && hasNil:
+						c.Hold(key, g.Pos(), "the generator receives the statistic of old[reuseStatIdx] when reuseStatIdx >= 0 and nil otherwise")
+					case ri == nil && hasNil:
+						// nil is right only where no reusable old rule exists
+						okNil := true
+						for _, r := range bs.reuseIdx {
+							if bs.nonNeg(g.Block(), r) {
+								okNil = false
+							}
 						}
-					}
-					if reuse != nil {
-						c.Check(bs.derivesFromIndex(g.Call.Args[1], reuse, 0), key, g.Pos(), "statistic-reusable branch: the generator receives the statistic of old[reuseStatIdx]")
-					} else {
-						c.Check(isNilConst(stripConv(g.Call.Args[1])), key, g.Pos(), "no reusable old rule: the generator receives nil")
+						c.Check(okNil, key, g.Pos(), "no reusable old rule: the generator receives nil")
+					default:
+						c.Violate(key, g.Pos(), "the generator's statistic argument %s is not understood", accessPath(g.Call.Args[1]))
 					}
 				}
 				if len(bs.gens) == 0 {
@@ -307,17 +369,13 @@ func init() {
 				bs := analyseBuilder(f)
 				eqRemoved, reuseRemoved := false, false
 				for _, er := range bs.equalReuses() {
-					if _, ok := bs.removed[er.idx]; ok {
+					if bs.removedFor(er.idx) {
 						eqRemoved = true
 					}
 				}
 				for _, g := range bs.gens {
-					for _, ri := range bs.reuseIdx {
-						if bs.nonNeg(g.Block(), ri) {
-							if _, ok := bs.removed[ri]; ok {
-								reuseRemoved = true
-							}
-						}
+					if ri, proper, _ := bs.donorOf(g); proper && ri != nil && bs.removedFor(ri) {
+						reuseRemoved = true
 					}
 				}
 				c.Check(eqRemoved, fnKey(f)+" / equal-old-removed", f.Pos(), "the old object reused for an equal rule is removed from the candidates (old = append(old[:equalIdx], old[equalIdx+1:]...))")
@@ -341,13 +399,7 @@ func init() {
 				bad := ""
 				for _, g := range bs.gens {
 					// only generator calls that can consume a donor
-					donor := false
-					for _, ri := range bs.reuseIdx {
-						if bs.nonNeg(g.Block(), ri) {
-							donor = true
-						}
-					}
-					if !donor {
+					if ri, _, _ := bs.donorOf(g); ri == nil {
 						continue
 					}
 					for _, er := range ers {
@@ -464,10 +516,11 @@ func init() {
 				}
 				bs := analyseBuilder(f)
 				// loop headers: blocks holding a range-index phi
+				// loop headers: targets of back edges (a predecessor that the block itself dominates)
 				var headers []*ssa.BasicBlock
 				for _, b := range f.Blocks {
-					for _, ins := range b.Instrs {
-						if phi, ok := ins.(*ssa.Phi); ok && phi.Comment == "rangeindex" {
+					for _, p := range b.Preds {
+						if b.Dominates(p) {
 							headers = append(headers, b)
 							break
 						}
